@@ -496,8 +496,8 @@ def gen_sim(rng, cid, flavour):
 
 
 def corpus():
-    """model witnesses of Props/C09.lean (F8, F10) and regression cases (former F9 / F26 panics, same-minute daemon
-    restarts, empty bit set), always replayed on the real daemon first"""
+    """regression cases, always replayed on the real daemon first: the former witnesses of F8 (now: no call), F10 (now:
+    exactly one Start), F9 / F26 (now: load errors), same-minute daemon restarts, empty bit set"""
     T = ts(2024, 1, 1, 0, 7)
     tick = lambda st=None, susp=(): {"op": "tick", "susp": list(susp), "st": st or {}, "late": 0}
     c = []
@@ -788,6 +788,9 @@ def monitor_sim(chk, c, outs, counters):
                         chk.violation("C09:stop-not-due", "Stop issued for d%d at %d: matching=%s suspended=%s status=%s" % (fid, t, mT, susp, code), c)
                 if exp_stop and nT == 0:
                     chk.violation("C09:missed-stop", "no Stop for running d%d at %d although %s matches" % (fid, t, mT), c)
+                if nT > 1:
+                    chk.violation("C09:double-stop" + (":two-schedules-same-minute" if len(mT) > 1 else ""),
+                                  "%d Stop calls for d%d in one minute (matching stop schedules: %s)" % (nT, fid, mT), c)
             # restart clause
             exp_restart = bool(mR) and not susp
             if nR and not exp_restart:
@@ -798,6 +801,9 @@ def monitor_sim(chk, c, outs, counters):
                     chk.violation("C09:restart-not-due", "Restart issued for d%d at %d: matching=%s suspended=%s" % (fid, t, mR, susp), c)
             if exp_restart and nR == 0:
                 chk.violation("C09:missed-restart", "no Restart for d%d at %d although %s matches" % (fid, t, mR), c)
+            if nR > 1:
+                chk.violation("C09:double-restart" + (":two-schedules-same-minute" if len(mR) > 1 else ""),
+                              "%d Restart calls for d%d in one minute (matching restart schedules: %s)" % (nR, fid, mR), c)
         # calls for files that should not be scheduled at all
         for call in calls:
             fid = int(call[1:])
